@@ -27,7 +27,8 @@ def make_like_vec(c):
 def run(c, seed, opts, n_total):
     o = dict(opts)
     vec = o.pop("vectorize", False)
-    s = tempest.Sampler(prior, (make_like_vec if vec else make_like)(c), n_dim=2, n_particles=24, vectorize=vec,
+    npart = o.pop("n_particles", 24)
+    s = tempest.Sampler(prior, (make_like_vec if vec else make_like)(c), n_dim=2, n_particles=npart, vectorize=vec,
                         random_state=seed, output_dir=tempfile.mkdtemp(prefix="c10_"), **o)
     s.run(n_total=n_total, progress=False)
     st = s.state
@@ -65,7 +66,8 @@ def main():
     p = json.load(open(sys.argv[1]))
     tried = 0
     lattice = [dict(), dict(sample="rwm"), dict(resample="syst"), dict(clustering=False), dict(volume_variation=0.5),
-               dict(sample="rwm", resample="syst", clustering=False), dict(vectorize=True), dict(cluster_every=2)]
+               dict(sample="rwm", resample="syst", clustering=False), dict(vectorize=True), dict(cluster_every=2),
+               dict(volume_variation=0.03, n_particles=64), dict(volume_variation=0.1, n_particles=48, sample="rwm")]
     shifts = [3.0, -250.0, 1000.0, -1000.0]
     cwd = os.getcwd()
     os.chdir(tempfile.mkdtemp(prefix="c10_cwd_"))
